@@ -406,8 +406,22 @@ FUZZ_VALUES = ["", " ", "true", "TRUE", "maybe", "0", "-1", "1234567890123456789
 
 def fuzz_annotations(rnd, containers=("c1", "c2", "c3", "c4")):
     ann = {}
+
+    def value():
+        # per-container shapes name the containers the pod is going to get
+        v = rnd.choice(FUZZ_VALUES)
+        if len(v) < 300:
+            for i, c in enumerate(containers[:3]):
+                v = v.replace("c%d:" % (i + 1), "\0%d:" % i).replace("[c%d" % (i + 1), "[\0%d" % i).replace(" c%d]" % (i + 1), " \0%d]" % i)
+            for i, c in enumerate(containers[:3]):
+                v = v.replace("\0%d" % i, c)
+        return v
     for _ in range(rnd.randint(1, 4)):
-        key = rnd.choice(FUZZ_KEYS) + "." + RP
+        name = rnd.choice(FUZZ_KEYS)
+        if name in ("affinity", "anti-affinity") and rnd.random() < 0.85:
+            ann[RP + "/" + name] = value()             # (these two are prefixed, not suffixed, keys)
+            continue
+        key = name + "." + RP
         form = rnd.random()
         if form < 0.4:
             key += "/container." + rnd.choice(containers)
@@ -415,7 +429,7 @@ def fuzz_annotations(rnd, containers=("c1", "c2", "c3", "c4")):
             key += "/pod"
         elif form < 0.65:
             key += "/container."
-        ann[key] = rnd.choice(FUZZ_VALUES)
+        ann[key] = value()
     return ann
 
 
